@@ -32,6 +32,44 @@ opt-level = 1
 [workspace]
 """
 
+REPLAY_RS = '''// generated: native replay of property functions (one call per stdin line)
+use std::io::BufRead;
+fn p<T: std::str::FromStr>(s: &str) -> T where T::Err: std::fmt::Debug { s.parse::<T>().expect("arg") }
+fn hexb(s: &str) -> Vec<u8> { if s == "-" { return vec![]; } (0..s.len() / 2).map(|i| u8::from_str_radix(&s[2 * i..2 * i + 2], 16).unwrap()).collect() }
+fn hexs(s: &str) -> String { String::from_utf8(hexb(s)).expect("utf8") }
+#[allow(dead_code)]
+fn set(s: &str) -> std::collections::HashSet<u8> { if s == "-" { return Default::default(); } s.split(',').map(|x| x.parse::<u8>().unwrap()).collect() }
+fn dispatch(f: &str, a: &[String]) -> Result<(), ()> {
+    match f {
+%s
+        _ => return Err(()),
+    }
+    Ok(())
+}
+fn main() {
+    std::panic::set_hook(Box::new(|_| {}));
+    let stdin = std::io::stdin();
+    for line in stdin.lock().lines() {
+        let line = line.unwrap();
+        let toks: Vec<String> = line.split_whitespace().map(|s| s.to_string()).collect();
+        if toks.is_empty() { continue; }
+        let f = toks[0].clone();
+        let a: Vec<String> = toks[1..].to_vec();
+        let r = std::panic::catch_unwind(move || dispatch(&f, &a));
+        match r {
+            Ok(Ok(())) => println!("RETURNED"),
+            Ok(Err(())) => println!("BADCALL"),
+            Err(e) => {
+                if e.downcast_ref::<astrolabe::verif_props::common::AssumeFailed>().is_some() { println!("ASSUME"); }
+                else if let Some(s) = e.downcast_ref::<String>() { println!("PANICKED {}", s.replace('\\n', " ")); }
+                else if let Some(s) = e.downcast_ref::<&str>() { println!("PANICKED {}", s.replace('\\n', " ")); }
+                else { println!("PANICKED ?"); }
+            }
+        }
+    }
+}
+'''
+
 class BuildError(Exception):
     pass
 
@@ -84,97 +122,61 @@ class Scratch:
             f.write('\n#[doc(hidden)]\n#[allow(missing_docs, missing_debug_implementations)]\npub mod verif_props;\n')
         # make modules holding appended property modules reachable from the replay binary
         libtxt = open(os.path.join(src, 'lib.rs')).read()
-        for path in sorted({p.split('::')[0] for p in [s['path'][7:] for s in self.sigs.values() if s['path'].startswith('APPEND:')]}):
+        for path in sorted({pth[7:].split('::')[0] for pth, _ in getattr(self, 'prop_texts', []) if pth.startswith('APPEND:')}):
             libtxt = re.sub(r'^mod %s;' % path, '#[doc(hidden)] #[allow(missing_docs, missing_debug_implementations)] pub mod %s;' % path, libtxt, flags=re.M)
         libtxt = libtxt.replace('#![forbid(unsafe_code)]', '').replace('#![warn(missing_docs)]', '').replace('#![warn(missing_debug_implementations)]', '')
         open(os.path.join(src, 'lib.rs'), 'w').write(libtxt)
-        self._write_replay()
+        os.makedirs(os.path.join(self.dir, 'src', 'bin'), exist_ok=True)
+        open(os.path.join(self.dir, 'src', 'bin', 'replay.rs'), 'w').write('fn main() {}\n')
 
     def _collect_sigs(self, text, path):
-        for m in re.finditer(r'^\s*pub fn (\w+)\(([^)]*)\)\s*(?:->\s*([^{]+?))?\s*\{', text, flags=re.M):
-            name, params, ret = m.group(1), m.group(2), m.group(3)
-            ps = []
-            ok = True
-            for p in [x.strip() for x in params.split(',') if x.strip()]:
-                pn, pt = [x.strip() for x in p.split(':', 1)]
-                if pt not in INT_TYPES and pt not in ('bool', '&str', '&[u8]') and not pt.startswith('&HashSet') and not pt.startswith('HashSet'): ok = False
-                ps.append((pn, pt))
-            if ok: self.sigs[name] = {'params': ps, 'ret': ret, 'path': path}
+        self.prop_texts = getattr(self, 'prop_texts', [])
+        self.prop_texts.append((path, text))
+
+    def finish_replay(self, prog):
+        """generate src/bin/replay.rs from the property functions found in the MIR (so macro-generated ones are included)"""
+        if getattr(self, '_replay_done', False): return
+        sigs = {}
+        for n, f in prog.fns.items():
+            last = n.split('::')[-1]
+            if '<impl' in n or not re.match(r'^(c\d\d|oracle|probe|kf)_\w+$', last): continue
+            path = None
+            for pth, text in self.prop_texts:
+                if re.search(r'\bfn\s+%s\b' % re.escape(last), text): path = pth; break
+            if path is None:      # macro-generated: the name is an argument of a macro invocation (comments ignored)
+                for pth, text in self.prop_texts:
+                    code = '\n'.join(l for l in text.split('\n') if not l.lstrip().startswith('//'))
+                    if re.search(r'\b%s\b' % re.escape(last), code): path = pth; break
+            if path is None: continue
+            ps = []; ok = True
+            for p_ in f.params:
+                ty = f.locals[p_]
+                if ty in INT_TYPES or ty in ('bool', '&str', '&[u8]'): ps.append((f.debug.get(p_, p_), ty))
+                elif re.match(r'^&(std::collections::)?HashSet<u8>$', ty): ps.append((f.debug.get(p_, p_), '&HashSet'))
+                else: ok = False
+            if ok and f.ret in ('()', 'bool'): sigs[last] = {'params': ps, 'ret': f.ret, 'path': path}
+        self.sigs = sigs
+        self._write_replay()
+        self._replay_done = True
 
     def _write_replay(self):
         arms = []
         for name, s in sorted(self.sigs.items()):
-            if not re.match(r'^(c\d\d|oracle|contract|probe)_', name): continue
-            if s['ret'] not in (None, 'bool', '()'): continue
             path = s['path']
-            if path.startswith('APPEND:'):
-                # appended modules live inside private modules; expose through verif_props re-export written below
-                continue
+            if path.startswith('APPEND:'): path = path[7:]
             conv = []
             for i, (pn, pt) in enumerate(s['params']):
                 if pt in INT_TYPES and pt != 'char': conv.append('p::<%s>(&a[%d])' % (pt, i))
+                elif pt == 'char': conv.append('char::from_u32(p::<u32>(&a[%d])).unwrap()' % i)
                 elif pt == 'bool': conv.append('(a[%d] == "true" || a[%d] == "1")' % (i, i))
                 elif pt == '&str': conv.append('&hexs(&a[%d])' % i)
                 elif pt == '&[u8]': conv.append('&hexb(&a[%d])' % i)
-                elif pt == 'char': conv.append('char::from_u32(p::<u32>(&a[%d])).unwrap()' % i)
-                else: conv = None; break
-            if conv is None: continue
+                elif pt == '&HashSet': conv.append('&set(&a[%d])' % i)
             call = 'astrolabe::%s::%s(%s)' % (path, name, ', '.join(conv))
-            if s['ret'] == 'bool': call = 'let r = %s; println!("VALUE {}", r);' % call
+            if s['ret'] == 'bool': call = 'let r = %s; if !r { return Err(()) }' % call
             else: call = call + ';'
             arms.append('        "%s" => { if a.len() != %d { return Err(()) } %s }' % (name, len(s['params']), call))
-        # appended modules
-        for name, s in sorted(self.sigs.items()):
-            path = s['path']
-            if not path.startswith('APPEND:'): continue
-            if not re.match(r'^(c\d\d|oracle|contract|probe)_', name): continue
-            conv = []
-            for i, (pn, pt) in enumerate(s['params']):
-                if pt in INT_TYPES and pt != 'char': conv.append('p::<%s>(&a[%d])' % (pt, i))
-                elif pt == 'bool': conv.append('(a[%d] == "true" || a[%d] == "1")' % (i, i))
-                elif pt == '&str': conv.append('&hexs(&a[%d])' % i)
-                elif pt == '&[u8]': conv.append('&hexb(&a[%d])' % i)
-                elif pt.startswith('&HashSet') or pt.startswith('HashSet'): conv.append(('&' if pt.startswith('&') else '') + 'set(&a[%d])' % i)
-                else: conv = None; break
-            if conv is None: continue
-            arms.append('        "%s" => { if a.len() != %d { return Err(()) } astrolabe::%s::%s(%s); }' % (name, len(s['params']), path[7:], name, ', '.join(conv)))
-        code = '''// generated: native replay of property functions (one call per stdin line)
-use std::io::BufRead;
-fn p<T: std::str::FromStr>(s: &str) -> T where T::Err: std::fmt::Debug { s.parse::<T>().expect("arg") }
-fn hexb(s: &str) -> Vec<u8> { if s == "-" { return vec![]; } (0..s.len() / 2).map(|i| u8::from_str_radix(&s[2 * i..2 * i + 2], 16).unwrap()).collect() }
-fn hexs(s: &str) -> String { String::from_utf8(hexb(s)).expect("utf8") }
-#[allow(dead_code)]
-fn set(s: &str) -> std::collections::HashSet<u8> { if s == "-" { return Default::default(); } s.split(',').map(|x| x.parse::<u8>().unwrap()).collect() }
-fn dispatch(f: &str, a: &[String]) -> Result<(), ()> {
-    match f {
-%s
-        _ => return Err(()),
-    }
-    Ok(())
-}
-fn main() {
-    std::panic::set_hook(Box::new(|_| {}));
-    let stdin = std::io::stdin();
-    for line in stdin.lock().lines() {
-        let line = line.unwrap();
-        let toks: Vec<String> = line.split_whitespace().map(|s| s.to_string()).collect();
-        if toks.is_empty() { continue; }
-        let f = toks[0].clone();
-        let a: Vec<String> = toks[1..].to_vec();
-        let r = std::panic::catch_unwind(move || dispatch(&f, &a));
-        match r {
-            Ok(Ok(())) => println!("RETURNED"),
-            Ok(Err(())) => println!("BADCALL"),
-            Err(e) => {
-                if e.downcast_ref::<astrolabe::verif_props::common::AssumeFailed>().is_some() { println!("ASSUME"); }
-                else if let Some(s) = e.downcast_ref::<String>() { println!("PANICKED {}", s.replace('\\n', " ")); }
-                else if let Some(s) = e.downcast_ref::<&str>() { println!("PANICKED {}", s.replace('\\n', " ")); }
-                else { println!("PANICKED ?"); }
-            }
-        }
-    }
-}
-''' % '\n'.join(arms)
+        code = REPLAY_RS % '\n'.join(arms)
         os.makedirs(os.path.join(self.dir, 'src', 'bin'), exist_ok=True)
         open(os.path.join(self.dir, 'src', 'bin', 'replay.rs'), 'w').write(code)
 
@@ -205,6 +207,7 @@ fn main() {
 
     def replay_bin(self, release):
         key = bool(release)
+        if not getattr(self, '_replay_done', False): raise BuildError('finish_replay(prog) must run before the replay binary is built')
         with self._lock:
             if key in self._bin: return self._bin[key]
         tdir = os.path.join(self.dir, 'target_%s' % ('rel' if key else 'dev'))
